@@ -5,8 +5,9 @@
      "algorithms" are `sort_by` on suffix slices plus short-input special cases
    - LcpArray::compute_lcp_kasai (same text in src/compression/suffix_array.rs)
    - EnhancedSuffixArray::compute_bwt
-   - sais_construct (induced sorting) is NOT modelled: it is a parameter of `build`, and every
-     output of the real code is certified per run by the verified checker `check_sa`.
+   - sais_construct (induced sorting) is a parameter of `build` here; its executable model is
+     ModelSais.v (`sais`), plugged in by ProofsSais.build_with_sais_model_is_sa, and every
+     output of the real code is also certified per run by the verified checker `check_sa`.
    - the f64 part of select_algorithm (entropy / repetition ratio, only reached by Adaptive
      when len >= adaptive_threshold) is a parameter `analyse`.
    Indices are nat, thresholds N, bytes N.  Definitions only. *)
